@@ -171,7 +171,8 @@ node space; `DSt.apply` runs the statement-by-statement model of `doubly_list.go
    not (or no longer) in the list are no-ops because the specification says so.
 3. In related states `Front/Next…` and `Back/Prev…` read exactly the sequence and its reverse.
 4. Handles stay valid across unrelated operations: the specification never renames a node, a
-   call changes no list other than its receiver and no value of an existing node. -/
+   call changes no list other than its receiver and no value of an existing node (except
+   `e.Value = v` through the handle, which changes that one value and no list). -/
 theorem c13_dlist_refines :
     (∀ nl, Abs (DSt.zero nl) (ASt.zero nl)) ∧
     (∀ (s : DSt) (a : ASt), Abs s a → ∀ ops : List DOp, OpsOk a ops →
@@ -180,7 +181,7 @@ theorem c13_dlist_refines :
       s.forward l fuel = (a.seq l, true) ∧ s.backward l fuel = ((a.seq l).reverse, true)) ∧
     (∀ (a : ASt) (op : DOp),
       (∀ k, op.receiver ≠ some k → (a.apply op).1.seq k = a.seq k) ∧
-      (∀ n, n < a.fresh → (a.apply op).1.val n = a.val n) ∧
+      (∀ n, n < a.fresh → (∀ v, op ≠ .setValue n v) → (a.apply op).1.val n = a.val n) ∧
       a.fresh ≤ (a.apply op).1.fresh ∧ (a.apply op).1.nl = a.nl) := by
   refine ⟨fun nl => ⟨c13_zero_value nl, fun n => by simp [DSt.zero, ASt.zero, IM.get_empty], rfl, rfl⟩,
     fun s a h ops hok => run_refines h ops hok, fun s a h l hl fuel hf => ?_, spec_frame⟩
